@@ -165,7 +165,7 @@ func runMdbRoute(t *testing.T, out *vout, specDir string, ids []string, root map
 	if panicked {
 		walkedRoot = []string{"<panic>"}
 	}
-	term := fmt.Sprintf("(mk_routecase true %s [] %s %s %s %s %s true)", vStrings(ids), vJSON(root),
+	term := fmt.Sprintf("(mk_routecase true %s [] %s %s %s %s %s true false)", vStrings(ids), vJSON(root),
 		vList(logItems), vStrings(walkedRoot), js(processed), js(reported))
 	out.count("case:" + kind)
 	out.count(fmt.Sprintf("machines:%d", len(ids)))
